@@ -181,7 +181,18 @@ def r2_neighbours(ctx, repo, cls, kind):
     if not copies:
         moved = [s for s in body_stmts if (isinstance(s, ast.AugAssign) and isinstance(s.target, ast.Subscript) and access_path(s.target.value) == ind + ".vector")
                  or (isinstance(s, ast.Assign) and len(s.targets) == 1 and isinstance(s.targets[0], ast.Subscript) and access_path(s.targets[0].value) == ind + ".vector")]
-        if moved:
+        # a numpy working copy without a float dtype, displaced in place: for a design whose coordinates are all Python
+        # ints (integer parameters) the array is an integer array and `+= step` is truncated back to the integer
+        nparr = [s for s in stmts_of(add) if isinstance(s, ast.Assign) and len(s.targets) == 1 and isinstance(s.targets[0], ast.Name)
+                 and isinstance(s.value, ast.Call) and (access_path(s.value.func) or "").split(".")[-1] in ("array", "asarray")
+                 and s.value.args and access_path(s.value.args[0]) == ind + ".vector"
+                 and not any(k.arg == "dtype" for k in s.value.keywords) and len(s.value.args) == 1]
+        inplace = [s for s in body_stmts if nparr and isinstance(s, ast.AugAssign) and isinstance(s.target, ast.Subscript)
+                   and access_path(s.target.value) == nparr[0].targets[0].id]
+        if inplace:
+            ctx.violated("R2", construct, where(mod, inplace[0]), "the displacement %s is applied in place to %s = %s: for a design with integer coordinates the array has an integer dtype "
+                         "and the step is truncated away, so every neighbour coincides with the design" % (text(inplace[0]).strip(), nparr[0].targets[0].id, text(nparr[0].value)), key="fresh-copy")
+        elif moved:
             ctx.violated("R2", construct, where(mod, moved[0]), "the displacement is applied to the parent's own vector (the child vector is an alias, not a copy): displacing it moves the parent", key="fresh-copy")
         elif alias:
             ctx.violated("R2", construct, where(mod, alias[0]), "child vector is an alias of the parent's vector, not a copy: displacing it moves the parent", key="fresh-copy")
